@@ -25,7 +25,9 @@ func findKey(exp eval.Expression, keyAtt string) (string, string) {
 			return "", "header"
 		}
 		if _, ok := e.Body.Meta["http:body"]; ok {
-			if e.Body.Find(keyAtt) != nil {
+			// Only the attributes the body itself lists travel in it: Find would
+			// also look through the payload the body refers to.
+			if o := AsObject(e.Body.Type); o != nil && o.Attribute(keyAtt) != nil {
 				return keyAtt, "body"
 			}
 			if m, ok := e.Body.Meta["origin:attribute"]; ok && m[0] == keyAtt {
